@@ -176,6 +176,9 @@ def classify(case, clause, tid, mlines):
             if p[0] == 'T' and p[1] == '0' and p[3] in TERM:
                 last = p[5] if len(p) > 5 else '@?'
         return f"305|{last}" if last != '@?' else "305@?"
+    if clause == 303:
+        # a workflow without steps completes in its own run and is emitted once there and once by Task::next
+        return "303:workflow_without_steps" if not case['wf'].get('steps') else "303"
     if clause == 802:
         ms = [i for i, l in enumerate(tr.lines) if l.startswith(f'M {tid} ') and ' created ' not in l]
         if len(ms) >= 2 and not any(l.startswith(f'T {tid} ') for l in tr.lines[ms[0]:ms[1]]):
@@ -258,7 +261,7 @@ def run(prop, tier, seed):
         res = dict(res, ncases=res['ncases'] + res2['ncases'])
     class_stats = None
     class_ids = set()
-    if prop in ('C01', 'C07'):
+    if prop in ('C01', 'C03', 'C07'):
         # (C07 runs this corpus for its data flow: declared outputs, options and inputs under a name with `__` inside, which is not private)
         # the class for which progress is proved for every run (model/Class.v, proofs/Progress.v): sequential workflows of
         # interactive acts, complete / submit / remove on any task, four actions in ten while the scheduler is held.  The
@@ -291,8 +294,9 @@ def run(prop, tier, seed):
                 continue
             full = classify(cases[cid], clause, tid, m.get(cid, []))
             cls = full.split('|')[0]
-            if cid in class_ids and clause == 101:
-                cls = '101:in_proved_class'
+            if cid in class_ids and clause in (101, 304, 305):
+                # progress (C01) and hierarchical completion (C03) are theorems on this class: never a known finding
+                cls = f'{clause}:in_proved_class'
             violations.append({'class': cls, 'detail': f"case {cid}: {CLAUSE_TEXT.get(clause, clause)} (task #{tid}) [{full}]",
                                'case': {'kind': 'engine', 'case': cases[cid], 'clause': clause, 'task': tid}})
     if prop == 'C11':
